@@ -203,3 +203,149 @@ def local_from_call(fn, e, callee_suffix):
                 return True
         break
     return False
+
+
+def rule_builders(c, prog, R, crates):
+    """option builders (`fn opt(self, v) -> Self`) keep every other option"""
+    import re as _re
+    from sa import sym, wire
+    c.rule(R, "every public by-value builder method `fn x(self, ..) -> Self` of the codec option types returns a value whose fields are each either the corresponding field of `self` or computed from the method's own arguments (evaluated symbolically; `Self { f, ..self }`, `self.f = v; self` and helper forms alike): choosing one option must not reset another to its default")
+
+    def nolt(t):
+        return _re.sub(r"<'[\w_]+>|'[\w_]+ ", "", t or "")
+    n = 0
+    for f in prog.lib_fns():
+        if f.body is None or f.crate not in crates or not (f.d.get("vis") or "").startswith("Public") or not f.params:
+            continue
+        p0 = f.params[0]
+        sig = f.d.get("sig") or ""
+        ret = sig.rsplit(" -> ", 1)[-1] if " -> " in sig else ""
+        pty = p0.get("ty") or ""
+        if not (p0.get("k") == "Binding" and p0.get("name") == "self" and not pty.startswith("&") and nolt(ret) == nolt(pty)):
+            continue
+        adt = prog.adts.get(nolt(pty).split("<")[0])
+        if adt is None or adt.get("kind") != "Struct" or len(adt["variants"][0]["fields"]) < 2:
+            continue
+        n += 1
+        inst = f"builder:{core.short(f.path)}"
+        fields = [x["name"] for x in adt["variants"][0]["fields"]]
+        self_t = ("st", adt["path"], tuple((x, ("fld", ("in", "self"), x)) for x in fields))
+        env = {p0["lid"]: self_t}
+        for prm in f.params[1:]:
+            for b in core.walk(prm):
+                if b.get("k") == "Binding":
+                    env[b["lid"]] = ("in", "arg:" + b["name"])
+        try:
+            _, val, _ = wire.run_region(prog, f.body, env, [], depth=4)
+        except sym.Unsupported as e:
+            c.not_decided.append(f"{f.path}: builder body outside the symbolic model ({e})")
+            continue
+        if not (isinstance(val, tuple) and val and val[0] == "st"):
+            c.not_decided.append(f"{f.path}: result is not a struct value")
+            continue
+
+        def mentions_arg(t):
+            if isinstance(t, tuple):
+                if t and t[0] == "in" and str(t[1]).startswith("arg:"):
+                    return True
+                return any(mentions_arg(x) for x in t)
+            return False
+        lost = [fn_ for fn_, v in val[2] if v != ("fld", ("in", "self"), fn_) and not mentions_arg(v)]
+        if lost:
+            c.violation(R, f"resets|{core.short(f.path)}|{','.join(lost)}", f"{f.path} returns a value whose `{', '.join(lost)}` is neither self's nor built from the method's arguments: an option chosen earlier on the same builder is silently reset (e.g. a reflection database or property behaviour set before this call)", f.sp, instance=inst)
+        else:
+            c.ok(R, inst)
+    c.floor(R, n, 1, "builder methods")
+
+
+def rule_configured_db(c, prog, R, crates):
+    """the bundled database is consulted only to fill the default of an options value"""
+    c.rule(R, "who may call `rbx_reflection_database::get()` in the codecs: only a constructor of an options value (a function without receiver whose result is the options type and whose `database` field the call fills); everything else reads the database the caller configured, so a custom database is honoured for class data, defaults and descriptors alike")
+    n = 0
+    for f in prog.lib_fns():
+        if f.body is None or f.crate not in crates:
+            continue
+        for x in core.walk_fn(f):
+            if x.get("k") in ("Call", "MethodCall") and (core.callee(x) or "").startswith("rbx_reflection_database::get"):
+                n += 1
+                inst = f"dbget:{core.short(f.path)}"
+                sig = f.d.get("sig") or ""
+                ret = sig.rsplit(" -> ", 1)[-1] if " -> " in sig else ""
+                ctor = sig.startswith("fn()") and any(k in ret for k in ("Serializer<", "Deserializer<", "EncodeOptions<", "DecodeOptions<"))
+                if ctor:
+                    c.ok(R, inst)
+                else:
+                    c.violation(R, f"bundled-db|{core.short(f.path)}", f"{f.path} reads the bundled reflection database directly: with a database configured through `reflection_database(..)` this part of the codec still uses the bundled one (class tags, defaults or descriptors then come from two different databases)", core.loc(x), instance=inst)
+    c.floor(R, n, 1, "calls of rbx_reflection_database::get in the codecs")
+
+
+def _spk(n):
+    parts = (n.get("sp") or "").split(":")
+    try:
+        return (int(parts[1]), int(parts[2]))
+    except (IndexError, ValueError):
+        return (0, 0)
+
+
+def rule_scratch(c, prog, R, fns, what="value"):
+    """a growable buffer (Vec<u8> / String) declared outside a loop, appended to and read inside it, starts every
+    iteration empty: cleared before the first append of the iteration, or cleared after the last one on every way round"""
+    c.rule(R, f"a growable buffer that is declared outside a per-{what} loop, appended to inside it (`x.to_writer(&mut buf)`, push / extend / encode_config_buf(.., &mut buf)) and read there starts every iteration empty — cleared before the iteration's first append, or after its last one with no `continue` that skips the clearing; otherwise what is written for a later {what} still contains the earlier ones' bytes")
+    BUF = ("alloc::vec::Vec<u8>", "alloc::string::String")
+    GROW = ("push", "push_str", "extend", "extend_from_slice", "append", "write_all", "resize", "insert", "insert_str", "write_str", "write_fmt")
+    n = 0
+    for fn in fns:
+        if fn.body is None:
+            continue
+        for lp_node in core.walk_fn(fn, into_closures=False):
+            fl = core.as_for(lp_node)
+            if lp_node.get("k") == "DropTemps":
+                continue
+            if fl is not None:
+                body = fl[2]
+            elif lp_node.get("k") == "Loop" and lp_node.get("src") != "ForLoop":
+                body = lp_node
+            else:
+                continue
+            declared = set()
+            for st in core.walk_lets(body):
+                for b in core.walk(st["pat"]):
+                    if b.get("k") == "Binding":
+                        declared.add(b["lid"])
+            fills, reads, clears = {}, {}, {}
+            for x in core.walk(body, into_closures=False):
+                if x.get("k") in ("MethodCall", "Call"):
+                    args = core.call_args(x)
+                    nm = (core.callee_generic(x) or "").rsplit("::", 1)[-1]
+                    for i, a in enumerate(args):
+                        is_mut = a.get("k") == "AddrOf" and a.get("mut")
+                        base = core.strip(a)
+                        while base.get("k") in ("AddrOf", "Unary"):
+                            base = core.strip(base["e"])
+                        ty = (base.get("ty") or "")
+                        if not (base.get("k") == "Path" and base.get("res") == "local" and base["lid"] not in declared and ty.lstrip("&").replace("mut ", "").strip() in BUF):
+                            continue
+                        lid = base["lid"]
+                        if i == 0 and x.get("k") == "MethodCall" and nm in ("clear",) or (i == 0 and nm == "truncate"):
+                            clears.setdefault(lid, []).append(x)
+                        elif is_mut or (i == 0 and x.get("k") == "MethodCall" and nm in GROW):
+                            fills.setdefault(lid, []).append((base.get("name"), x))
+                        else:
+                            reads.setdefault(lid, []).append(x)
+                if x.get("k") == "Assign" and core.strip(x["l"]).get("res") == "local":
+                    clears.setdefault(core.strip(x["l"])["lid"], []).append(x)
+            for lid in set(fills) & set(reads):
+                n += 1
+                name = fills[lid][0][0]
+                inst = f"scratch:{core.short(fn.path).rsplit('::', 1)[-1]}:{name}"
+                first_fill = min(_spk(x) for _, x in fills[lid])
+                last_fill = max(_spk(x) for _, x in fills[lid])
+                cl = sorted(_spk(x) for x in clears.get(lid, []))
+                has_continue = any(y.get("k") == "Continue" for y in core.walk(body, into_closures=False))
+                if cl and (cl[0] < first_fill or (cl[-1] > last_fill and not has_continue)):
+                    c.ok(R, inst)
+                else:
+                    how = "never cleared in it" if not cl else "cleared only between two uses inside one iteration"
+                    c.violation(R, f"carried|{core.short(fn.path).rsplit('::', 1)[-1]}|{name}", f"{fn.path} appends to `{name}` and reads it once per {what} inside a loop, but the buffer is declared outside that loop and {how}: what is written for the k-th {what} starts with the bytes of the ones before it", core.loc(fills[lid][0][1]), instance=inst)
+    if n == 0:
+        c.ok(R, "no-carried-scratch-buffers")
